@@ -478,7 +478,7 @@ impl Check for C16Check {
         "C16"
     }
     fn n_cases(&self, ctx: &Ctx) -> u64 {
-        N_SYS + ctx.tier.sel(6_000, 80_000)
+        N_SYS + ctx.tier.sel(10_000, 80_000)
     }
     fn describe(&self, ctx: &Ctx, idx: u64) -> Value {
         let c = make_case(ctx, idx);
@@ -506,7 +506,8 @@ impl Check for C16Check {
             let mut ks: Vec<&str> = kinds.clone();
             ks.sort();
             ks.dedup();
-            let label = ks.join("+");
+            // one rewrite kind: its name; several different kinds: "composed" (the witness lists them)
+            let label = if ks.len() == 1 { ks[0].to_string() } else { "composed".to_string() };
             for k in kinds {
                 out.inc(&format!("applied:{k}"));
             }
